@@ -20,6 +20,10 @@ pub struct Oracle {
     /// after a crash: databases whose collection `c1` has not been opened by any request yet
     /// (`None` = no crash so far, `Some(set of databases already opened since)`)
     reopened_since_crash: Option<BTreeSet<String>>,
+    /// databases whose binding is *undetermined* after a key-management request answered 5xx (not
+    /// acknowledged: the change may or may not have been applied, in memory or durably): the values
+    /// it may have. Cleared by the next acknowledged (200) key-management answer for that database.
+    maybe: BTreeMap<String, BTreeSet<Option<String>>>,
 }
 
 /// methods whose default parameters address collection `c1` (their handler opens it)
@@ -66,6 +70,7 @@ impl Oracle {
             names: BTreeSet::new(),
             keys: BTreeSet::new(),
             reopened_since_crash: None,
+            maybe: BTreeMap::new(),
         }
     }
 
@@ -82,6 +87,7 @@ impl Oracle {
         self.keys = cfg.admin.iter().cloned().collect();
         self.cfg = cfg;
         self.bound.clear();
+        self.maybe.clear();
         self.reopened_since_crash = None;
     }
 
@@ -153,6 +159,16 @@ impl Oracle {
             Target::Db { name, .. } => token.is_some() && self.bound.get(name) == token.as_ref(),
             _ => false,
         };
+
+        // after an unacknowledged (5xx) key-management request the binding of that database is
+        // undetermined between the old and the requested value: no expectation for those two tokens
+        if !admin_ok
+            && let Target::Db { name, .. } = &r.target
+            && let Some(vals) = self.maybe.get(name)
+            && (vals.contains(&token) || self.bound.get(name) == token.as_ref())
+        {
+            return out;
+        }
 
         if !admin_ok && !db_ok {
             // ---- must be the uniform rejection, byte for byte, without touching storage ----
@@ -282,8 +298,19 @@ impl Oracle {
         if crate::ops::dec_str(&crate::ops::enc_str(name)).is_some() && !name.is_empty() {
             self.names.insert(name.clone());
         }
+        let key_mgmt = matches!(method.as_str(), "db.set_api_key" | "db.remove_api_key") || (method == "db.create" && key.is_some());
+        if resp.status >= 500 && key_mgmt {
+            let e = self.maybe.entry(name.clone()).or_default();
+            e.insert(self.bound.get(name).cloned());
+            e.insert(if method == "db.remove_api_key" { None } else { key.as_deref().map(|k| w.real(k)) });
+            return;
+        }
         if resp.status != 200 || resp_enc(resp).is_none() {
             return;
+        }
+        if key_mgmt {
+            // acknowledged: from now on exactly this, also after any crash or restart
+            self.maybe.remove(name);
         }
         match method.as_str() {
             "db.create" => {
